@@ -267,6 +267,11 @@ def run(repo, rep):
     rule_same_operator_guard(repo, rep)
     rep.clause("C16-s", "a constraint whose report line speaks of 'W and H' / 'both' requires its condition of both axes (comparisons of a height and a width variable with the same value are joined with `and`)")
     rule_both_axes(repo, rep)
+    rep.clause("C16-t", "a loop variable named after an operand iterates that operand's collection: the placement of the IFM's producers is asked of the IFM's producers (operand stems of loop variables, 8 loops, no exception)")
+    from .shared import loop_stem_lint
+
+    if loop_stem_lint(repo, rep, "C16-t", "the test looks at the wrong operand's producers / consumers - a memory-only operator behind a CPU operator is bypassed instead of becoming a copy, and the CPU operator is written with another output tensor") < 6:
+        raise AnalysisError("operand-named loop variables: fewer than 6 found")
     rule_round9(repo, rep)
     rule_round8(repo, rep)
     _so, _sem = repo.mod("tflite_supported_operators"), repo.mod("tflite_model_semantic")
